@@ -13,6 +13,8 @@ def gen_op(rng, kind=None, big=False):
     if kind == "direct":
         n = rng.choice([1, 2, 20, 32, 33, 71, 72, 73, 75, rng.randint(1, 75)])
         return kind, bytes([n]) + rb(n)
+    if kind == "direct1":
+        return "direct", b"\x01" + rb(1)
     if kind == "pd1":
         n = rng.choice([76, 77, 105, 255, rng.randint(76, 255)])
         return kind, b"\x4c" + bytes([n]) + rb(n)
@@ -71,6 +73,14 @@ def gen_scriptsig(rng, nops=None, big=False, last_kind=None):
         k, raw = gen_op(rng, last_kind if last else None, big=big and rng.random() < 0.1)
         ops.append(raw)
         kinds.append(k)
+    if nops >= 2 and rng.random() < 0.12:
+        # the final operation also occurs earlier in the script, byte for byte (an
+        # opcode or a one-byte push is then even the same object once decoded)
+        if rng.random() < 0.5:
+            k, raw = gen_op(rng, rng.choice(["opn", "nonpush", "neg1", "direct1"]))
+            ops[-1], kinds[-1] = raw, k
+        j = rng.randrange(nops - 1)
+        ops[j], kinds[j] = ops[-1], kinds[-1]
     return b"".join(ops), ops, kinds
 
 
